@@ -10,57 +10,37 @@ open EsbuildModel.TsNs EsbuildModel.TsNs.Impl
 /-! ### namespaces that TypeScript does not instantiate -/
 
 mutual
-/-- no namespace inside is written in the dotted form `namespace a.b` -/
-def noDottedM : Member → Bool
-  | .ns _ dotted _ body => !dotted && noDottedL body
-  | _ => true
-def noDottedL : List Member → Bool
-  | [] => true
-  | m :: rest => noDottedM m && noDottedL rest
-end
-
-theorem dottedTail_false_of_noDotted (body : List Member) (h : noDottedL body = true) : dottedTail body = false := by
-  unfold dottedTail
-  split
-  · simp [noDottedL, noDottedM] at h
-  · rfl
-
-mutual
 theorem parseM_uninstantiated (o : Opts) (π : Path) (pmap : Option MapId) (i : Nat) (mem : List SMember) (maps : Maps)
     (hπ : π ≠ []) :
-    (m : Member) → Spec.instantiatedM m = false → noDottedM m = true →
+    (m : Member) → Spec.instantiatedM m = false →
       ∃ maps', parseM o π pmap i mem maps m = .ok ([], mem, maps', false)
-  | .typeOnly _, _, _ => ⟨maps, by simp [parseM]⟩
-  | .ns exported dotted name body, hi, hd => by
+  | .typeOnly _, _ => ⟨maps, by simp [parseM]⟩
+  | .ns exported dotted name body, hi => by
     have hi' : Spec.instantiatedL body = false := by simpa [Spec.instantiatedM] using hi
-    have hd' : noDottedL body = true := by
-      simp [noDottedM] at hd; exact hd.2
     obtain ⟨maps', hp⟩ := parseL_uninstantiated o (i :: π) (some (getOrCreate mem pmap maps name exported (i :: π)).1) 0 []
-      (getOrCreate mem pmap maps name exported (i :: π)).2 (by simp) body hi' hd'
+      (getOrCreate mem pmap maps name exported (i :: π)).2 (by simp) body hi'
     refine ⟨registerExports maps' (getOrCreate mem pmap maps name exported (i :: π)).1 [], ?_⟩
-    have hc := dottedTail_false_of_noDotted body hd'
     simp only [parseM]
     have hne : ¬ (exported = true ∧ π = []) := fun h => hπ h.2
     simp only [hne, if_false]
     rw [hp]
-    simp [hc]
-  | .local_ .., hi, _ => by simp [Spec.instantiatedM] at hi
-  | .func .., hi, _ => by simp [Spec.instantiatedM] at hi
-  | .enum_ .., hi, _ => by simp [Spec.instantiatedM] at hi
-  | .expr _, hi, _ => by simp [Spec.instantiatedM] at hi
-  | .importEq .., hi, _ => by simp [Spec.instantiatedM] at hi
-  | .declareFn, hi, _ => by simp [Spec.instantiatedM] at hi
+    simp
+  | .local_ .., hi => by simp [Spec.instantiatedM] at hi
+  | .func .., hi => by simp [Spec.instantiatedM] at hi
+  | .enum_ .., hi => by simp [Spec.instantiatedM] at hi
+  | .expr _, hi => by simp [Spec.instantiatedM] at hi
+  | .importEq .., hi => by simp [Spec.instantiatedM] at hi
+  | .declareFn, hi => by simp [Spec.instantiatedM] at hi
 
 theorem parseL_uninstantiated (o : Opts) (π : Path) (pmap : Option MapId) (i : Nat) (mem : List SMember) (maps : Maps)
     (hπ : π ≠ []) :
-    (ms : List Member) → Spec.instantiatedL ms = false → noDottedL ms = true →
+    (ms : List Member) → Spec.instantiatedL ms = false →
       ∃ maps', parseL o π pmap i mem maps ms = .ok ([], mem, maps', false)
-  | [], _, _ => ⟨maps, by simp [parseL]⟩
-  | m :: rest, hi, hd => by
+  | [], _ => ⟨maps, by simp [parseL]⟩
+  | m :: rest, hi => by
     simp [Spec.instantiatedL] at hi
-    simp [noDottedL] at hd
-    obtain ⟨maps1, h1⟩ := parseM_uninstantiated o π pmap i mem maps hπ m hi.1 hd.1
-    obtain ⟨maps2, h2⟩ := parseL_uninstantiated o π pmap (i + 1) mem maps1 hπ rest hi.2 hd.2
+    obtain ⟨maps1, h1⟩ := parseM_uninstantiated o π pmap i mem maps hπ m hi.1
+    obtain ⟨maps2, h2⟩ := parseL_uninstantiated o π pmap (i + 1) mem maps1 hπ rest hi.2
     exact ⟨maps2, by simp [parseL, h1, h2]⟩
 end
 
